@@ -2012,12 +2012,118 @@ def fmt_op(op):
     return k + "(" + ", ".join(f"{a}={json.dumps(b)}" for a, b in o.items()) + ")"
 
 
+# ------------------------------------------------------------------ labels (add_iteration_suffix)
+DOCUMENTED_LABELS = ["col", "col1", "col_02", "a", "a_01", "x9", "x99", "a_", "a__", "_", "__", "", "7", "09", "99",
+                     "0099", "000", "a_00", "a_1", "b 2", "a1b", "Sensor", "Sensor_01", "col_99", "a-1", "a.5", "9_",
+                     " ", "a ", '"', 'a"1', "it's", "a\\9", "a_9", "a09", "9", "1_0", "a_01_", "~", "(1)"]
+LETTERS = "abcxyzABZ"
+PUNCT = " _-.:/\\\"'()[]{}#+*~!?,;<>=%&$@^|`"
+
+
+def gen_label(rng):
+    """printable ASCII label of length 0..12"""
+    r = rng.random()
+    if r < 0.04:
+        return ""
+    if r < 0.16:
+        return "".join(rng.choice("0123456789") for _ in range(rng.randint(1, 6)))
+    if r < 0.24:
+        return rng.choice(["9", "09", "99", "099", "999", "0999", "0", "00", "000", "19", "199", "0099", "9999999"])
+    n = rng.randint(0, 8)
+    body = "".join(rng.choice(LETTERS if rng.random() < 0.6 else "0123456789" if rng.random() < 0.5 else PUNCT)
+                   for _ in range(n))
+    tail = rng.choice(["", "", "_", "__", "_0", "_00", "_01", "_9", "_99", "9", "99", "09", "1", " 2", "_ ", "1b",
+                       "_1_", "-1", ".5"])
+    return (body + tail)[:12]
+
+
+def coq_string(t):
+    return '"' + t.replace('"', '""') + '"'
+
+
+def label_impl(lab):
+    """(add_iteration_suffix(l), label of the copy of a Sensor with pending style kwargs, label of the copy
+    of a Sensor with initialised style); a raised exception is reported as '<raises Name>'"""
+    from magpylib._src.utility import add_iteration_suffix
+
+    def guard(f):
+        try:
+            return f()
+        except Exception as e:      # pylint: disable=broad-except
+            return f"<raises {type(e).__name__}>"
+
+    def initialised():
+        s = magpy.Sensor()
+        s.style.label = lab
+        return s.copy().style.label
+    return (guard(lambda: add_iteration_suffix(lab)), guard(lambda: magpy.Sensor(style_label=lab).copy().style.label),
+            guard(initialised))
+
+
+def label_oracle(lab):
+    """the property on one label, model-independent: None or (trigger, text)"""
+    a, b, c = label_impl(lab)
+    for which, v in (("pending", b), ("initialised", c)):
+        if isinstance(v, str) and v.startswith("<raises "):
+            kind = "empty" if lab == "" else label_kind(lab, False).split("-")[0]
+            return f"{kind}-raises-{v[8:-1]}", (f"Sensor.copy() of an object whose style label is "
+                                                + ("the empty string" if lab == "" else repr(lab)) +
+                                                f" ({which} style) raises {v[8:-1]}")
+    if not (a == b == c):
+        return "copy-differs-from-add_iteration_suffix", (
+            f"label {lab!r}: add_iteration_suffix gives {a!r}, the copy of a Sensor with pending style kwargs is "
+            f"labelled {b!r}, with initialised style {c!r}")
+    if b == lab:
+        return "not-different", f"the copy of a Sensor labelled {lab!r} has the same label"
+    try:
+        s = magpy.Sensor(style_label=lab)
+        chain = [lab]
+        for _ in range(3):
+            s = s.copy()
+            chain.append(s.style.label)
+    except Exception as e:      # pylint: disable=broad-except
+        return f"chain-raises-{type(e).__name__}", f"copies of copies of a Sensor labelled {lab!r} raise {type(e).__name__}"
+    if len(set(chain)) != 4:
+        return "chain-repeats", f"three successive copies of a Sensor labelled {lab!r} are labelled {chain[1:]}"
+    return None
+
+
+def shrink_label(lab, trigger):
+    def fails(chars):
+        r = label_oracle("".join(chars))
+        return r is not None and r[0] == trigger
+    return "".join(shrink_list(list(lab), fails, max_steps=60))
+
+
+LABELS_HEADER = """From Coq Require Import List String.
+Import ListNotations.
+Open Scope string_scope.
+From MV Require Import Model.LabelModel.
+"""
+
+
+def label_model_check(ctx, pairs, chunk=500):
+    """pairs (label, implementation result); returns the indices where LabelModel.iter_str differs, or None"""
+    bad = []
+    for k, ci in enumerate(range(0, len(pairs), chunk)):
+        part = pairs[ci:ci + chunk]
+        txt = LABELS_HEADER + "Eval vm_compute in (label_failing 0 [" + \
+            ";\n ".join(f"({coq_string(a)}, {coq_string(b)})" for a, b in part) + "]).\n"
+        ok, out = ctx.coq_eval(f"c18_{ctx.tier}_labels_{k}", txt)
+        m = re.search(r"=\s*\[([\d;\s]*)\]\s*:\s*list nat", out) if ok else None
+        if m is None:
+            ctx.add_broken("broken-correspondence", f"c18_{ctx.tier}_labels_{k}", "model evaluation failed:\n" + out[-1500:])
+            return None
+        bad += [ci + int(z) for z in m.group(1).split(";") if z.strip()]
+    return bad
+
+
 # ------------------------------------------------------------------ main
 def ensure_model_built(ctx):
     """while Props/C18.v does not exist: compile the executable model only"""
     with Lock():
         ensure_makefile()
-        rc, out = sh("make Model/CopyExec.vo", 600, cwd=COQ)
+        rc, out = sh("make Model/CopyExec.vo Model/LabelModel.vo", 600, cwd=COQ)
     if rc != 0:
         ctx.add_broken("broken-proof", "Model/CopyExec.v", out[-2000:])
         return False
@@ -2048,6 +2154,7 @@ def run(ctx):
         "collection with children (those move the children: search only); value tokens are exact encodings "
         "(bit patterns of arrays, quaternions rounded to 1e-12)",
     ]
+    ctx.regen(["GenForest"])     # AST fingerprints of BaseGeo.copy / style / add_iteration_suffix (fail closed)
     built = ctx.build_props()
     if ctx.tier == "thorough" and built:
         ctx.coqchk("MV.Props.C18")
@@ -2125,10 +2232,55 @@ def run(ctx):
 
     run_guarded(ctx, corr, "C18 correspondence")
 
+    label_list = list(DOCUMENTED_LABELS)
+    seen_l = set(label_list)
+    while len(label_list) < ctx.n(400, 5000):
+        lab = gen_label(ctx.rng)
+        if lab not in seen_l or ctx.rng.random() < 0.05:
+            seen_l.add(lab)
+            label_list.append(lab)
+
+    def labels():
+        """stage 3b: LabelModel.iter_str vs add_iteration_suffix vs the label of actual copies"""
+        pairs = []
+        for lab in label_list:
+            a, b, c = label_impl(lab)
+            ctx.case("label:" + lab, True)
+            ctx.bump("label:" + ("empty" if lab == "" else "digits-only" if lab.isdigit() else
+                                 "ends-with-digit" if lab[-1].isdigit() else
+                                 "ends-with-underscore" if lab[-1] == "_" else "other"))
+            pairs.append((lab, a))
+        ctx.samples.append({"labels": [[a, b] for a, b in pairs[:len(DOCUMENTED_LABELS)]]})
+        bad = label_model_check(ctx, pairs) if model_ok else None
+        if bad is None:
+            return
+        ctx.count("traces_validated_against_impl", len(pairs) - len(bad))
+        ctx.log(f"labels: model and implementation differ on {len(bad)} of {len(pairs)} labels")
+        if bad:
+            lab, got = pairs[bad[0]]
+            ctx.add_broken("broken-correspondence", "LabelModel vs add_iteration_suffix",
+                           f"{len(bad)} of {len(pairs)} labels differ; first: label {lab!r}: implementation gives "
+                           f"{got!r}, the copies give {label_impl(lab)[1:]}; others: "
+                           + repr([pairs[i] for i in bad[1:6]]))
+
+    run_guarded(ctx, labels, "C18 labels")
+
     def search():
         big = bool(ctx.broken)
         n = ctx.n(300, 4000) * (6 if big else 1)
         stats, fails, errors = {}, [], []
+        lab_fails = {}
+        for lab in label_list:                 # the property on the labels, independent of the model
+            r = label_oracle(lab)
+            ctx.bump("search-label")
+            if r is not None and r[0] not in lab_fails:
+                lab_fails[r[0]] = lab
+        for trig, lab in lab_fails.items():
+            small = shrink_label(lab, trig)
+            r = label_oracle(small)
+            if r is None or r[0] != trig:
+                small, r = lab, label_oracle(lab)
+            ctx.impl_fail(f"label/Sensor:{r[0]}", r[1], {"kind": "label", "label": small, "trigger": r[0]})
         for ops in FIXED_PROBES:
             ctx.case(json.dumps(ops, sort_keys=True), True)
             ctx.bump("search-fixed-probe")
@@ -2185,6 +2337,15 @@ def replay(ctx, obj):
             print(f"VIOLATION property=C18 replay={obj.get('how_to_rerun', '').split()[-1] or 'given'}")
             return 1
         print("replay: every clause of the property holds on this script")
+        return 0
+    if rp.get("kind") == "label":
+        r = label_oracle(rp["label"])
+        print(f"   label {rp['label']!r}: add_iteration_suffix / copy (pending) / copy (initialised) = {label_impl(rp['label'])}")
+        if r is not None:
+            print(f"replay: FAILS [label/Sensor:{r[0]}] {r[1]}")
+            print(f"VIOLATION property=C18 replay={obj.get('how_to_rerun', '').split()[-1] or 'given'}")
+            return 1
+        print("replay: the label of the copy is iterated as documented")
         return 0
     print(json.dumps(obj, indent=1)[:3000])
     return 0
